@@ -119,9 +119,9 @@ func TestC09(t *testing.T) {
 
 		// target address state
 		var target sdk.AccAddress
-		tk := rapid.IntRange(0, 8).Draw(t, "targetState")
+		tk := rapid.IntRange(0, 9).Draw(t, "targetState")
 		targetKinds := []string{"absent", "base_no_key", "base_with_key_and_sequence", "continuous_vesting", "module_account", "vesting_sender_itself",
-			"periodic_vesting", "delayed_vesting", "permanent_locked"}
+			"periodic_vesting", "delayed_vesting", "permanent_locked", "base_with_key_without_funds"}
 		switch tk {
 		case 0:
 			target = v.NextFresh()
@@ -139,6 +139,13 @@ func TestC09(t *testing.T) {
 			if rapid.Bool().Draw(t, "targetDelegated") {
 				v.Delegate(target, sdk.NewInt(100))
 			}
+		case 9:
+			// an account that exists (key registered, has signed) but holds no coins at the moment
+			target = v.NextFresh()
+			acc := v.App.AccountKeeper.NewAccountWithAddress(v.Ctx, target)
+			_ = acc.SetPubKey(FreshAcc(v.fresh).Priv.PubKey())
+			_ = acc.SetSequence(uint64(rapid.IntRange(0, 9).Draw(t, "emptySeq")))
+			v.App.AccountKeeper.SetAccount(v.Ctx, acc)
 		case 6, 7, 8:
 			// the other vesting account kinds of cosmos-sdk's x/auth/vesting (the app routes its messages too)
 			target = v.NextFresh()
